@@ -82,6 +82,27 @@ func (p *Prog) applyInlining() {
 					continue
 				}
 				obj, _ := info.Defs[fd.Name].(*types.Func)
+				// the generic per-function rules (E1–E4) keep looking at the body as written
+				if obj != nil && st.callsNew(pk, fd.Body) {
+					m := map[ast.Node]ast.Node{}
+					orig := cloneNode(fd.Body, m).(*ast.BlockStmt)
+					copyInfo(info, m)
+					if p.origBody == nil {
+						p.origBody = map[*types.Func]*ast.BlockStmt{}
+						p.newCallees = map[*types.Func][]*types.Func{}
+					}
+					p.origBody[obj] = orig
+					seen := map[*types.Func]bool{}
+					ast.Inspect(fd.Body, func(n ast.Node) bool {
+						if call, ok := n.(*ast.CallExpr); ok {
+							if fn := callee(info, call); fn != nil && st.isNew[fn] != nil && !seen[fn] {
+								seen[fn] = true
+								p.newCallees[obj] = append(p.newCallees[obj], fn)
+							}
+						}
+						return true
+					})
+				}
 				func() {
 					defer func() {
 						if r := recover(); r != nil {
@@ -1022,7 +1043,10 @@ func substituteObj(info *types.Info, root ast.Node, obj types.Object, repl ast.E
 		m := map[ast.Node]ast.Node{}
 		cp := cloneNode(repl, m).(ast.Expr)
 		copyInfo(info, m)
-		if _, simple := cp.(*ast.Ident); !simple {
+		setPos(reflect.ValueOf(cp), id.Pos()) // the copy sits where the parameter's name stood
+		_, isU := cp.(*ast.UnaryExpr)
+		_, isS := cp.(*ast.StarExpr)
+		if isU || isS { // names and selector chains need no parentheses
 			cp = &ast.ParenExpr{Lparen: id.Pos(), X: cp, Rparen: id.End()}
 			if tv, has := info.Types[repl]; has {
 				info.Types[cp] = tv
@@ -1101,4 +1125,50 @@ func initOf(s ast.Stmt) ast.Stmt {
 		return x.Init
 	}
 	return nil
+}
+
+
+// callsNew: the body contains a call of a new helper.
+func (st *inlineState) callsNew(pk *packagesPkg, body ast.Node) bool {
+	found := false
+	ast.Inspect(body, func(n ast.Node) bool {
+		if call, ok := n.(*ast.CallExpr); ok && !found {
+			if fn := callee(pk.TypesInfo, call); fn != nil && st.isNew[fn] != nil {
+				found = true
+			}
+		}
+		return !found
+	})
+	return found
+}
+
+
+var posType = reflect.TypeOf(token.NoPos)
+
+// setPos gives every valid position inside a (freshly cloned) subtree the value pos.
+func setPos(v reflect.Value, pos token.Pos) {
+	switch v.Kind() {
+	case reflect.Interface, reflect.Ptr:
+		if !v.IsNil() {
+			if v.Kind() == reflect.Ptr && (v.Type() == objPtrType || v.Type() == scopePtrType) {
+				return
+			}
+			setPos(v.Elem(), pos)
+		}
+	case reflect.Slice:
+		for i := 0; i < v.Len(); i++ {
+			setPos(v.Index(i), pos)
+		}
+	case reflect.Struct:
+		for i := 0; i < v.NumField(); i++ {
+			f := v.Field(i)
+			if f.Type() == posType {
+				if f.CanSet() && f.Int() != 0 {
+					f.SetInt(int64(pos))
+				}
+				continue
+			}
+			setPos(f, pos)
+		}
+	}
 }
